@@ -35,6 +35,9 @@ pub struct OsslState {
     pub rsa_e_len: usize,
     // raw EdDSA public key bytes (32 or 57 used)
     pub ed_pub: [u8; 57],
+    // lengths of the inputs handed to acme_common::b64_encode when it is cut (harness observability)
+    pub b64_in_len: [usize; 4],
+    pub b64_calls: usize,
 }
 pub static mut OSSL: OsslState = OsslState {
     magic: 0x0551_C0DE_ACED_0002,
@@ -61,6 +64,8 @@ pub static mut OSSL: OsslState = OsslState {
     rsa_e: [0; 4],
     rsa_e_len: 0,
     ed_pub: [0; 57],
+    b64_in_len: [0; 4],
+    b64_calls: 0,
 };
 pub fn st() -> &'static mut OsslState {
     unsafe { &mut *core::ptr::addr_of_mut!(OSSL) }
